@@ -19,5 +19,5 @@ pub fn main(o: &Opts) {
         return;
     }
     let meta = o.get("mode") == Some("meta");
-    family_main(o, "C01", 0x5c1, "filter", if meta { "mem1,memb" } else { "memb,mem1" }, meta, |_, _, g| Some(g));
+    family_main(o, "C01", 0x5c1, "filter", if meta { "mem1,memb,mem8c" } else { "memb,mem1,mem8c" }, meta, |_, _, g| Some(g));
 }
